@@ -3,16 +3,16 @@
 #  1. the change is applied and the tree builds; 2. the pinned test binary passes (non-Live) with it;
 #  3. the demo fails with it; 4. the demo passes without it.   Writes /tmp/seed/<id>.confirm.log
 # usage: confirm_seed.sh <worktree-id> ; exit 0 iff all four hold
-id=$1; wt=/tmp/seed/$id; log=/tmp/seed/$id.confirm.log
+R=${SEEDROOT:-/tmp/seed}; id=$1; wt=$R/$id; log=$R/$id.confirm.log
 exec >"$log" 2>&1
 set -x
 cd $wt || exit 9
 git diff --quiet -- src && { echo "NO CHANGE APPLIED"; exit 8; }
-git diff -- src > /tmp/seed/$id.patch.diff
+git diff -- src > $R/$id.patch.diff
 cmake --build _build -j6 >/dev/null || { echo "BUILD FAILED"; exit 1; }
-( cd _build && ./bin/arestest --gtest_filter='-*.Live*' 2>&1 | tail -3 ) > /tmp/seed/$id.tests.txt
-cat /tmp/seed/$id.tests.txt
-grep -q "PASSED" /tmp/seed/$id.tests.txt && ! grep -q "FAILED" /tmp/seed/$id.tests.txt || { echo "TESTS FAILED WITH CHANGE"; exit 2; }
+( cd _build && ./bin/arestest --gtest_filter='-*.Live*' 2>&1 | tail -3 ) > $R/$id.tests.txt
+cat $R/$id.tests.txt
+grep -q "PASSED" $R/$id.tests.txt && ! grep -q "FAILED" $R/$id.tests.txt || { echo "TESTS FAILED WITH CHANGE"; exit 2; }
 ( cd test/fuzzinput && ../../_build/bin/aresfuzz * >/dev/null ) || { echo "aresfuzz failed"; exit 2; }
 ( cd test/fuzznames && ../../_build/bin/aresfuzzname * >/dev/null ) || { echo "aresfuzzname failed"; exit 2; }
 bash demo/build.sh >/dev/null 2>&1 || { echo "DEMO BUILD FAILED (with)"; exit 3; }
@@ -27,5 +27,5 @@ git stash pop -q
 cmake --build _build -j6 >/dev/null
 echo "demo without change: rc=$rc_without"
 [ $rc_without -eq 0 ] || { echo "DEMO FAILS WITHOUT CHANGE"; exit 5; }
-echo "CONFIRMED $id tests=$(grep -o 'PASSED.*' /tmp/seed/$id.tests.txt) with=$rc_with without=$rc_without"
+echo "CONFIRMED $id tests=$(grep -o 'PASSED.*' $R/$id.tests.txt) with=$rc_with without=$rc_without"
 exit 0
